@@ -213,6 +213,8 @@ CHECKS = {
         parts=[
             dict(name="random", run="TestC18Random", checks=dict(quick=3000, thorough=20000), shards=dict(quick=1, thorough=16)),
             dict(name="lifetime", run="TestC18Lifetime", checks=dict(quick=5000, thorough=20000), shards=dict(quick=1, thorough=8)),
+            dict(name="types", run="TestC18Types", checks=dict(quick=3000, thorough=20000), shards=dict(quick=1, thorough=4)),
+            dict(name="content", run="TestC18Content", checks=dict(quick=3000, thorough=20000), shards=dict(quick=1, thorough=4)),
             dict(name="transport", run="TestC18Transport", checks=dict(quick=40, thorough=250), shards=dict(quick=1, thorough=4)),
             dict(name="real", run="TestC18Real", checks=dict(quick=300, thorough=1500), shards=dict(quick=1, thorough=4)),
         ],
